@@ -99,40 +99,43 @@ Fixpoint star_skip_m (m : str) : str :=
   | c :: t => if c =? 47 then m else star_skip_m t
   end.
 
-(* one unit of fuel per iteration of while(1); every iteration consumes at
-   least one pattern character, so length pattern + 1 is enough *)
+(* the body of while(1); [continue] is the next iteration *)
+Definition path_step (continue : str -> str -> mres) (p m : str) : mres :=
+  match p with
+  | [] => match m with [] => MRet p m | _ :: _ => MNull end
+  | c :: t =>
+      if (c =? 58) && (hd0 m =? 0) then MRet p m
+      else if c =? 123 then
+        match match_options p m with
+        | None => MNull
+        | Some (p', m') => continue p' m'
+        end
+      else if c =? 42 then
+        let p' := star_skip_p p in
+        let m' := if (hd0 p' =? 47) || (hd0 p' =? 58) then star_skip_m m else m in
+        continue p' m'
+      else if (c =? 47) && (hd0 m =? 47) then
+        let m' := tl m in
+        if (hd0 t =? 0) || (hd0 t =? 58) then MRet t m' else continue t m'
+      else if c =? 35 then
+        match match_number t m with
+        | (false, _, _) => MNull
+        | (true, p', m') => continue p' m'
+        end
+      else if c =? hd0 m then
+        match m with
+        | _ :: ms => continue t ms
+        | [] => MRet p m
+        end
+      else MNull
+  end.
+
+(* one unit of fuel per iteration; every iteration consumes at least one
+   pattern character, so length pattern + 1 is enough *)
 Fixpoint match_path_f (fuel : nat) (p m : str) : mres :=
   match fuel with
   | O => MFuel
-  | S f =>
-      match p with
-      | [] => match m with [] => MRet p m | _ :: _ => MNull end
-      | c :: t =>
-          if (c =? 58) && (hd0 m =? 0) then MRet p m
-          else if c =? 123 then
-            match match_options p m with
-            | None => MNull
-            | Some (p', m') => match_path_f f p' m'
-            end
-          else if c =? 42 then
-            let p' := star_skip_p p in
-            let m' := if (hd0 p' =? 47) || (hd0 p' =? 58) then star_skip_m m else m in
-            match_path_f f p' m'
-          else if (c =? 47) && (hd0 m =? 47) then
-            let m' := tl m in
-            if (hd0 t =? 0) || (hd0 t =? 58) then MRet t m' else match_path_f f t m'
-          else if c =? 35 then
-            match match_number t m with
-            | (false, _, _) => MNull
-            | (true, p', m') => match_path_f f p' m'
-            end
-          else if c =? hd0 m then
-            match m with
-            | _ :: ms => match_path_f f t ms
-            | [] => MRet p m
-            end
-          else MNull
-      end
+  | S f => path_step (match_path_f f) p m
   end.
 
 Definition match_path (p m : str) : mres := match_path_f (S (length p)) p m.
